@@ -49,9 +49,9 @@ def main():
         for prop in sorted(d[:-4] for d in os.listdir(src) if d.endswith(".out")):
             if only and prop not in only:
                 continue
-            for k in ("m1", "m2"):
+            for k in sorted(os.listdir(os.path.join(src, prop + ".out"))):
                 d = os.path.join(src, prop + ".out", k)
-                if not os.path.isdir(d):
+                if not (os.path.isdir(d) and k.startswith("m") and os.path.exists(os.path.join(d, "patch.diff"))):
                     continue
                 patch = os.path.join(d, "patch.rebased.diff") if os.path.exists(os.path.join(d, "patch.rebased.diff")) else os.path.join(d, "patch.diff")
                 sid = f"{prop}-{k}"
@@ -94,7 +94,10 @@ def main():
         sh(["git", "-C", WT, "checkout", "--", "."])
         sh(["git", "-C", "/repo", "worktree", "remove", "--force", WT])
         shutil.rmtree(NC, ignore_errors=True)
-    json.dump(results, open(os.path.join(VERIF, "seeded", "SUMMARY.json"), "w"), indent=1)
+    sp = os.path.join(VERIF, "seeded", "SUMMARY.json")
+    old = json.load(open(sp)) if os.path.exists(sp) else []
+    new_ids = {m["id"] for m in results}
+    json.dump([m for m in old if m["id"] not in new_ids] + results, open(sp, "w"), indent=1)
 
 
 if __name__ == "__main__":
